@@ -128,6 +128,7 @@ def check(rep, an, tier):
             F.pred_from_X(rep, res, entry)
             F.sign_attrs(rep, res, entry)
             F.hygiene(rep, res, entry)
+            R.rule_rowsep(rep, res, entry)
     # estimator wrapper
     fields = estimator_fields(K="vec", baseline="vec")
     kw = dict(B=arr("B", S("N", "F"), U_REL, "TOTAL"), underdetermined_opt=strv("underdetermined_opt", "max"),
@@ -150,6 +151,8 @@ def check(rep, an, tier):
 
 def var_structure(rep, res, expr, where, text, entry):
     """Σ (x − x̄)²: the squared operand is x minus (Σx divided by the number of sources)."""
+    if expr is None:
+        return          # objective not resolved to a single expression tree: reported as undecided by the reducer obligation
     a = expr.tag("atom")
     if not a or a[0] != "sum_squares":
         return
